@@ -1,6 +1,28 @@
 """Pieces shared by several property modules."""
 from ..common import Finding, AnalysisError
 
+def driver_memo_per_call(rep, rule_id='DRIVER-memo-per-call'):
+    """values computed in one parse (for a let variable, a field, a count ...) can reach a later parse
+    only through state that outlives the driver call: the memo is a fresh local dictionary of each
+    call (rule C07-memo-local, reported here under the calling property)"""
+    import ast as _ast
+    from .. import routes, trampoline, load
+    from ..common import Finding
+    rep.rule(rule_id, 'the memo is a fresh local dictionary of each driver call')
+    for what, tree, rel in routes.runtime_subjects():
+        dname, dfn, dcall = trampoline.find_trampoline(tree, what)
+        cc = load.call_constant()
+        for x in _ast.walk(dfn):
+            if isinstance(x, _ast.Compare) and isinstance(x.left, _ast.Subscript) \
+                    and isinstance(x.comparators[0], _ast.Constant):
+                cc = x.comparators[0].value
+        _, tbad, _ = trampoline.analyse(dfn, cc, bool(dfn.args.args and dfn.args.args[0].arg == '_ctx'), what)
+        rep.count('driver copies checked for a per-call memo')
+        for rule, msg in tbad:
+            if rule == 'C07-memo-local':
+                rep.add(Finding(rule_id, f'{rel}:runtime', '', msg, f'{rel} ({what})'))
+
+
 RULE_TEXT = {
     'F0-flags-exclusive': 'no class reports always_succeeds() and can_partially_succeed() together',
     'G1-no-trace': 'FAIL(c) never in prov(_pos) at a child start or a success exit',
